@@ -9,6 +9,7 @@ import (
 	"sort"
 	"strings"
 	"sync"
+	"time"
 
 	ps "seehuhn.de/go/postscript"
 
@@ -262,8 +263,25 @@ func replayPS(args []string) error {
 	basePath := fs.String("base", "psbase.json", "base heap written by the specification")
 	maxReport := fs.Int("max-report", 400, "maximum number of disagreements reported in detail")
 	fs.BoolVar(&crashOnly, "crash-only", false, "only panics count (C01)")
+	isolate := fs.Bool("isolate", false, "replay in child processes: fatal runtime errors and hangs are observed (C01)")
 	if err := fs.Parse(args); err != nil {
 		return err
+	}
+	if *isolate {
+		sub := []string{"replay-ps", "-base", *basePath}
+		if crashOnly {
+			sub = append(sub, "-crash-only")
+		}
+		return runIsolated(sub, fs.Arg(0), 30000, 300*time.Second, "psop", func(raw []byte) string {
+			var v psVector
+			if json.Unmarshal(raw, &v) != nil {
+				return string(raw[:min(len(raw), 300)])
+			}
+			return stimulusText(&v)
+		})
+	}
+	if os.Getenv("VH_CHILD") != "" {
+		childLimits()
 	}
 	base, err := loadBase(*basePath)
 	if err != nil {
@@ -279,6 +297,7 @@ func replayPS(args []string) error {
 	distinct := map[string]bool{}
 	var wg sync.WaitGroup
 	var firstErr error
+	hangs := 0
 	for w := 0; w < runtime.NumCPU(); w++ {
 		wg.Add(1)
 		go func() {
@@ -293,9 +312,29 @@ func replayPS(args []string) error {
 					mu.Unlock()
 					continue
 				}
-				d := checkVector(base, &v, j.line)
+				// an operator that does not return is reported as a hang and its goroutine
+				// abandoned; after a few of them the rest is left unexamined
+				mu.Lock()
+				giveUp := hangs >= 6
+				mu.Unlock()
+				if giveUp {
+					continue
+				}
+				var d *disagreement
+				done := make(chan *disagreement, 1)
+				go func() { done <- checkVector(base, &v, j.line) }()
+				hung := false
+				select {
+				case d = <-done:
+				case <-time.After(30 * time.Second):
+					hung = true
+					d = &disagreement{Sig: opSig(&v, "hang"), What: "the call did not return within 30 s", Stimulus: stimulusText(&v), Expected: "a result or an error value", Observed: "still running", Line: j.line}
+					mu.Lock()
+					hangs++
+					mu.Unlock()
+				}
 				unrep := false
-				if d != nil {
+				if d != nil && !hung {
 					// a disagreement counts only if the stimulus alone reproduces it
 					if d2 := checkVector(base, &v, j.line); d2 == nil || d2.Sig != d.Sig {
 						unrep = true
